@@ -54,6 +54,8 @@ M = [
  ("the bus's own name, is refused", 'C13', "RequestName('org.freedesktop.DBus') by a client is answered 1 (primary owner) with NameAcquired; GetNameOwner / ListQueuedOwners then name the client while calls to that name are still answered by the bus: the name has two owners and the reply code misstates the caller's relation to it"),
  ('asking for dbusCaller gets it also when it is wrapped', 'C10', "an exported method written with @defer.inlineCallbacks (or declaring dbusCaller keyword-only) and asking for dbusCaller=None runs with dbusCaller=None: the caller's unique name is not passed although the implementation asks for it"),
  ('authentication line is not too long when a read ends between its CR and LF', 'C06', "an authentication line of exactly 16384 bytes (not longer than 16 KiB) whose read ends between its CR and its LF: the connection is closed, while the same line delivered whole or cut anywhere else is answered as the state machine prescribes"),
+ ('apostrophes in match rule values are escaped', 'C12', "addMatch(arg=[(0, \"it's\")]) sends arg0='it's' (not a rule); arg=[(0, \"x',member='Other\")] sends arg0='x',member='Other' - a valid rule with another meaning: the text sent to the daemon does not express the constraints of the local rule"),
+ ('the bus reads match rule values with commas', 'C12', "AddMatch(\"type='signal',arg0='a,b'\") or arg0='a=b' on the built-in bus: ValueError out of the rule parser, the rule cannot be registered"),
  ('RequestName queues a requester', 'C13', 'request without the replace flag refused instead of queued; a waiting client requesting again queued twice'),
  ('waiting for a name leaves the queue', 'C13', 'ReleaseName by a queued client answered NOT_OWNER and left it queued; a queued client that disconnected later became a dead owner'),
 ]
